@@ -73,6 +73,12 @@ class Freshness:
             self.self_names.add(func.params[0])
         if func.params and func.params[0] in ('self', 'cls'):
             self.self_names.add(func.params[0])
+        # methods of *data* classes (ValueOrList.map, PaneBase.dict, ...): the receiver is the caller's value, not converter state
+        self.value_self: t.Set[str] = set()
+        if func.cls is not None and func.params and func.params[0] == 'self' and func.name not in ('__init__', '__new__') \
+                and not _is_converter(model, func.cls):
+            self.value_self.add(func.params[0])
+            self.self_names.discard(func.params[0])
         self._memo: t.Dict[t.Tuple[int, int], str] = {}
 
     def classify(self, e: ast.AST, n: Node, depth: int = 0) -> str:
@@ -82,6 +88,8 @@ class Freshness:
         if isinstance(e, ast.Name):
             if e.id in self.self_names:
                 return 'SELF'
+            if e.id in self.value_self and all(d.kind == 'param' for d in self.rd.at(n, e.id)):
+                return 'RAW'
             if not self.rd.is_local(e.id):
                 return 'OTHER'
             kinds = set()
@@ -139,6 +147,8 @@ class Freshness:
         if d.kind == 'param':
             if d.name in self.self_names:
                 out = 'SELF'
+            elif d.name in self.value_self:
+                out = 'RAW'
             elif d.name in self.fresh_params:
                 out = 'FRESH'
             else:
@@ -169,6 +179,16 @@ class Freshness:
         return out
 
 
+def _private(name: str) -> bool:
+    """A single-underscore method of somebody else's object (``Counter._keep_positive``): its effect on the receiver is not part of any
+    public contract, so calling it on the caller's value is treated as a mutation."""
+    return name.startswith('_') and not (name.startswith('__') and name.endswith('__'))
+
+
+def _is_converter(model: Model, cls: ClassInfo) -> bool:
+    return model.is_subclass(cls.qualname, CONVERTER)
+
+
 def rule_c09_r1(model: Model) -> RuleResult:
     r = RuleResult('C09-R1', 'no mutating operation is applied to a value reachable from the input', floor=12)
     fixture_ok = _fixture_fires()
@@ -179,9 +199,11 @@ def rule_c09_r1(model: Model) -> RuleResult:
         cfg = fr.cfg
         r.analysed.add(f.qualname)
         for n in cfg.live_nodes():
-            for (what, recv, sub) in _mutations(n):
-                r.instances += 1
+            for (what, recv, sub) in _mutations(n, private=True):
                 k = fr.classify(recv, n)
+                if k != 'RAW' and _private(what.strip('.()')):
+                    continue       # private helpers of the converter itself
+                r.instances += 1
                 r.sample({'function': f.qualname, 'operation': what, 'receiver': unparse(recv), 'class': k})
                 if k == 'RAW':
                     r.fail(f.qualname, f"{what} on `{unparse(recv)}`", f.loc(sub),
@@ -192,7 +214,7 @@ def rule_c09_r1(model: Model) -> RuleResult:
     return r
 
 
-def _mutations(n: Node) -> t.List[t.Tuple[str, ast.AST, ast.AST]]:
+def _mutations(n: Node, private: bool = False) -> t.List[t.Tuple[str, ast.AST, ast.AST]]:
     out: t.List[t.Tuple[str, ast.AST, ast.AST]] = []
     a = n.ast
     if a is None:
@@ -220,7 +242,7 @@ def _mutations(n: Node) -> t.List[t.Tuple[str, ast.AST, ast.AST]]:
                     out.append(('attribute delete', tg.value, tg))
     for root in node_exprs(n):
         for sub in walk_no_nested(root):
-            if isinstance(sub, ast.Call) and isinstance(sub.func, ast.Attribute) and sub.func.attr in MUTATORS:
+            if isinstance(sub, ast.Call) and isinstance(sub.func, ast.Attribute) and (sub.func.attr in MUTATORS or (private and _private(sub.func.attr))):
                 out.append((f".{sub.func.attr}()", sub.func.value, sub))
             if isinstance(sub, ast.Call) and isinstance(sub.func, ast.Attribute) and sub.func.attr == '__setattr__' \
                     and isinstance(sub.func.value, ast.Name) and sub.func.value.id == 'object' and sub.args:
